@@ -576,6 +576,10 @@ func (s *sink) Write(p []byte) (int, error) {
 			s.buf = append(s.buf, p[:n]...)
 			return n, errInjected
 		}
+		if s.faultHow == "full" { // every byte accepted and still an error (a deferred failure of the device)
+			s.buf = append(s.buf, p...)
+			return len(p), errInjected
+		}
 		return 0, errInjected
 	}
 	// copy only now: a buffer released too early may have been overwritten
